@@ -114,8 +114,13 @@ pub mod compact_types {
 use super::*;
 //@item compact | struct | Compact
 //@item compact | struct | CompactRef
-//@item compact | struct | PrefixInput
+//@item-pub compact | struct | PrefixInput
 //@item compact | trait | CompactLen
+//@item-pub compact | const | U8_OUT_OF_RANGE
+//@item-pub compact | const | U16_OUT_OF_RANGE
+//@item-pub compact | const | U32_OUT_OF_RANGE
+//@item-pub compact | const | U64_OUT_OF_RANGE
+//@item-pub compact | const | U128_OUT_OF_RANGE
 } // mod compact_types
 pub use compact_types::*;
 
@@ -343,3 +348,220 @@ def template(src, flags):
     for t in ('u8', 'u16', 'u32', 'u64', 'u128'):
         parts.append(FWD.replace('$M', t).replace('$T', t))
     return '\n'.join(parts)
+
+
+DEC_HEAD = r'''
+pub mod compact_dec_lemmas {
+use vstd::prelude::*;
+use super::spec::*;
+use super::le_lemmas::*;
+use super::compact_lemmas::*;
+
+pub proof fn mode0(b: Seq<u8>)
+    requires b.len() >= 1, b[0] % 4 == 0
+    ensures compact((b[0] / 4) as nat) == seq![b[0]], compact_dec(b) == Some(((b[0] / 4) as nat, 1nat))
+{
+    let p = b[0];
+    assert(4 * ((p / 4) as nat) == p as nat);
+    assert(compact((p / 4) as nat) =~= seq![p]);
+}
+
+pub proof fn mode1(b: Seq<u8>)
+    requires b.len() >= 2, b[0] % 4 == 1
+    ensures ({
+        let v = from_le(b.take(2));
+        &&& v < 65536
+        &&& b.take(2) == le(v, 2)
+        &&& (forall|w: nat| w < 65536 && #[trigger] le(w, 2) == b.take(2) ==> w == v)
+        &&& (v / 4 >= 64 ==> (compact(v / 4) == b.take(2) && compact_dec(b) == Some((v / 4, 2nat))))
+        &&& (v / 4 < 64 ==> compact_dec(b) is None)
+    })
+{
+    let v = from_le(b.take(2));
+    pow256_values();
+    le_from_le(b.take(2));
+    assert forall|w: nat| w < 65536 && #[trigger] le(w, 2) == b.take(2) implies w == v by { le_inj(w, v, 2); }
+    assert(le(v, 2)[0] == (v % 256) as u8);
+    assert(b.take(2)[0] == b[0]);
+    assert(v % 4 == 1);
+    assert(4 * (v / 4) + 1 == v);
+}
+
+pub proof fn mode2(b: Seq<u8>)
+    requires b.len() >= 4, b[0] % 4 == 2
+    ensures ({
+        let v = from_le(b.take(4));
+        &&& v < 4294967296
+        &&& b.take(4) == le(v, 4)
+        &&& (forall|w: nat| w < 4294967296 && #[trigger] le(w, 4) == b.take(4) ==> w == v)
+        &&& (v / 4 >= 16384 ==> (compact(v / 4) == b.take(4) && compact_dec(b) == Some((v / 4, 4nat))))
+        &&& (v / 4 < 16384 ==> compact_dec(b) is None)
+    })
+{
+    let v = from_le(b.take(4));
+    pow256_values();
+    le_from_le(b.take(4));
+    assert forall|w: nat| w < 4294967296 && #[trigger] le(w, 4) == b.take(4) implies w == v by { le_inj(w, v, 4); }
+    assert(le(v, 4)[0] == (v % 256) as u8);
+    assert(b.take(4)[0] == b[0]);
+    assert(v % 4 == 2);
+    assert(4 * (v / 4) + 2 == v);
+}
+
+pub proof fn mode3(b: Seq<u8>)
+    requires b.len() >= 1, b[0] % 4 == 3, b.len() >= 1 + (b[0] / 4) as nat + 4
+    ensures ({
+        let k = (b[0] / 4) as nat + 4;
+        let body = b.subrange(1, 1 + k as int);
+        let x = from_le(body);
+        &&& x < pow256(k)
+        &&& body == le(x, k)
+        &&& (forall|w: nat| w < pow256(k) && #[trigger] le(w, k) == body ==> w == x)
+        &&& ((x >= 1073741824 && x >= pow256((k - 1) as nat)) ==> (compact(x) == seq![b[0]] + body && compact_dec(b) == Some((x, 1 + k))))
+        &&& (!(x >= 1073741824 && x >= pow256((k - 1) as nat)) ==> compact_dec(b) is None)
+    })
+{
+    let k = (b[0] / 4) as nat + 4;
+    let body = b.subrange(1, 1 + k as int);
+    let x = from_le(body);
+    le_from_le(body);
+    assert forall|w: nat| w < pow256(k) && #[trigger] le(w, k) == body implies w == x by { le_inj(w, x, k); }
+    if x >= 1073741824 && x >= pow256((k - 1) as nat) {
+        compact_big(x, k);
+        assert(3 + (k - 4) * 4 == b[0] as nat);
+    }
+}
+
+pub proof fn too_wide(b: Seq<u8>, w: nat)
+    requires b.len() >= 1, b[0] % 4 == 3, (b[0] / 4) as nat + 4 > w
+    ensures compact_accepts(b, w) is None
+{
+    let k = (b[0] / 4) as nat + 4;
+    pow256_mono(w, (k - 1) as nat);
+}
+
+pub proof fn narrow_ok(b: Seq<u8>, w: nat, x: nat, n: nat)
+    requires compact_dec(b) == Some((x, n)), x < pow256(w)
+    ensures compact_accepts(b, w) == Some(n)
+{}
+
+} // mod compact_dec_lemmas
+
+pub mod prefix_input {
+use super::*;
+broadcast use auto::psc_auto;
+//@module prefix_input props=C03,C04,C08
+impl<'a, T: 'a + Input> Input for PrefixInput<'a, T> {
+    open spec fn bytes(&self) -> Seq<u8> {
+        match self.prefix { Some(v) => seq![v] + self.input.bytes(), None => self.input.bytes() }
+    }
+    // PrefixInput does not forward descend/ascend/alloc hooks (trait defaults): it is only handed to u16/u32 decoders
+    open spec fn depth_st(&self) -> Option<(nat, nat)> { None }
+    open spec fn mem_room(&self) -> Option<nat> { None }
+
+    // `self.prefix.iter().count()` (iterator adapter): outside Verus; contract assumed, discharged by Kani (kani.prefix_remaining_len)
+    //@fn prefix.remaining_len :: compact | impl<'a,T:'a + Input>Input for PrefixInput<'a,T> | remaining_len
+    //@ external_body
+    //@fn prefix.read :: compact | impl<'a,T:'a + Input>Input for PrefixInput<'a,T> | read
+    //@ ret r
+    //@+ ensures
+    //@+     old(buffer)@.len() > 0 && r is Ok ==> final(self).prefix is None,
+    //@+     mut_ref_future(final(self).input) == mut_ref_future(old(self).input),
+    //@+     final(self).input.depth_st() == old(self).input.depth_st(),
+    //@+     final(self).input.mem_room() == old(self).input.mem_room(),
+    //@ at start
+    //@+ proof { broadcast use sl::take_skip; }
+    //@fn prefix.descend_ref.default :: codec | pub trait Input | descend_ref
+    //@ default-for compact | impl<'a,T:'a + Input>Input for PrefixInput<'a,T>
+    //@fn prefix.ascend_ref.default :: codec | pub trait Input | ascend_ref
+    //@ default-for compact | impl<'a,T:'a + Input>Input for PrefixInput<'a,T>
+    //@fn prefix.on_before_alloc_mem.default :: codec | pub trait Input | on_before_alloc_mem
+    //@ default-for compact | impl<'a,T:'a + Input>Input for PrefixInput<'a,T>
+}
+
+// R5: `u16::decode` / `u32::decode` monomorphised at I = PrefixInput<'_, T> (same real bodies), under a contract that
+// exposes what happens to the wrapped input (the generic Decode contract cannot: the abstraction of PrefixInput is not injective)
+//@fn prefix.u16_decode :: codec | impl Decode for u16 | decode
+//@ subre `fn decode<I: Input>\(input: &mut I\)\s*->\s*Result<Self, Error>` `pub fn u16_decode_prefix<'a, T: 'a + Input>(input: &mut PrefixInput<'a, T>) -> (r: Result<u16, Error>)` R5
+//@ sub `<u16>::from_le_bytes(buf)` `u16_from_le_bytes(buf)` R14
+//@+ requires old(input).prefix is Some,
+//@+ ensures
+//@+     mut_ref_future(final(input).input) == mut_ref_future(old(input).input),
+//@+     final(input).input.depth_st() == old(input).input.depth_st(),
+//@+     final(input).input.mem_room() == old(input).input.mem_room(),
+//@+     match r {
+//@+         Ok(v) => old(input).bytes().len() >= 2 && old(input).bytes() == le(v as nat, 2) + final(input).input.bytes() && final(input).prefix is None,
+//@+         Err(_) => old(input).bytes().len() < 2,
+//@+     },
+//@ at before `Ok(u16_from_le_bytes(buf))`
+//@+ proof { broadcast use sl::take_skip; }
+
+//@fn prefix.u32_decode :: codec | impl Decode for u32 | decode
+//@ subre `fn decode<I: Input>\(input: &mut I\)\s*->\s*Result<Self, Error>` `pub fn u32_decode_prefix<'a, T: 'a + Input>(input: &mut PrefixInput<'a, T>) -> (r: Result<u32, Error>)` R5
+//@ sub `<u32>::from_le_bytes(buf)` `u32_from_le_bytes(buf)` R14
+//@+ requires old(input).prefix is Some,
+//@+ ensures
+//@+     mut_ref_future(final(input).input) == mut_ref_future(old(input).input),
+//@+     final(input).input.depth_st() == old(input).input.depth_st(),
+//@+     final(input).input.mem_room() == old(input).input.mem_room(),
+//@+     match r {
+//@+         Ok(v) => old(input).bytes().len() >= 4 && old(input).bytes() == le(v as nat, 4) + final(input).input.bytes() && final(input).prefix is None,
+//@+         Err(_) => old(input).bytes().len() < 4,
+//@+     },
+//@ at before `Ok(u32_from_le_bytes(buf))`
+//@+ proof { broadcast use sl::take_skip; }
+} // mod prefix_input
+pub use prefix_input::{u16_decode_prefix, u32_decode_prefix};
+'''
+
+DEC_COMMON_START = r'''    //@ sub `u16::decode(&mut PrefixInput {` `u16_decode_prefix(&mut PrefixInput {` R5
+$SUB32    //@ at start
+    //@+ let ghost b0 = input.bytes();
+    //@+ proof {
+    //@+     broadcast use sl::concat_take;
+    //@+     le_lemmas::pow256_values();
+    //@+     if b0.len() >= 1 {
+    //@+         assert(b0 =~= seq![b0[0]] + b0.skip(1));
+    //@+         if b0[0] % 4 == 0 { compact_dec_lemmas::mode0(b0); }
+    //@+         if b0[0] % 4 == 1 && b0.len() >= 2 { compact_dec_lemmas::mode1(b0); }
+    //@+         if b0[0] % 4 == 2 && b0.len() >= 4 { compact_dec_lemmas::mode2(b0); }
+    //@+         if b0[0] % 4 == 3 && b0.len() >= 1 + (b0[0] / 4) as nat + 4 { compact_dec_lemmas::mode3(b0); }
+    //@+         if b0[0] % 4 == 3 && (b0[0] / 4) as nat + 4 > $N { compact_dec_lemmas::too_wide(b0, $N); }
+    //@+         assert forall|w: Seq<u8>, r: Seq<u8>| b0.skip(1) == #[trigger] (w + r) implies b0.subrange(1, 1 + w.len() as int) == w by {
+    //@+             assert(b0.subrange(1, 1 + w.len() as int) =~= w);
+    //@+         }
+    //@+     }
+    //@+     assert forall|p: u8| (#[trigger] (p >> 2u8)) == p / 4 by { assert((p >> 2u8) == p / 4) by (bit_vector); }
+    //@+     assert forall|v: u16| (#[trigger] (v >> 2u16)) == v / 4 by { assert((v >> 2u16) == v / 4) by (bit_vector); }
+    //@+     assert forall|v: u32| (#[trigger] (v >> 2u32)) == v / 4 by { assert((v >> 2u32) == v / 4) by (bit_vector); }
+    //@+ }
+'''
+
+DEC_SMALL = r"""
+pub mod compact_dec_$T {
+use super::*;
+broadcast use auto::psc_auto;
+//@module compact_dec_$T props=C02,C03,C04,C08,C14,C18
+impl Decode for Compact<$T> {
+    open spec fn accepts(b: Seq<u8>) -> Option<nat> { compact_accepts(b, $N) }
+    open spec fn dec_bytes(v: &Self) -> Seq<u8> { compact(v.0 as nat) }
+    open spec fn need_depth(b: Seq<u8>) -> nat { 0 }
+    //@fn compact.$T.decode :: compact | impl Decode for Compact<$T> | decode
+$START}
+} // mod compact_dec_$T
+"""
+
+def dec_template():
+    out = [DEC_HEAD]
+    for t, n in (('u8', 1), ('u16', 2), ('u32', 4)):
+        sub32 = '' if t == 'u8' else '    //@ sub `u32::decode(&mut PrefixInput {` `u32_decode_prefix(&mut PrefixInput {` R5\n'
+        st = DEC_COMMON_START.replace('$SUB32', sub32).replace('$N', str(n))
+        out.append(DEC_SMALL.replace('$START', st).replace('$N', str(n)).replace('$T', t))
+    return '\n'.join(out)
+
+
+_old_template = template
+
+
+def template(src, flags):
+    return _old_template(src, flags) + '\n' + dec_template()
